@@ -110,3 +110,58 @@ KERNELS += [
       [(r"state\.value_test\(patience\) < epsilon", "below")], [("below", "bool")], "c02b", _B),
     K("src_pdsgm_reset", _PDS, r"void updateL\(.*?if \((.*?)\)\s*\{", [(r"gnorm > m_L", "larger")], [("larger", "bool")], "c02b", _B),
 ]
+
+# ---- extension 3 (C02_Bodies2): the decisions of the remaining non-line-search bodies: ellipsoid.cpp, osga.cpp, universal.cpp
+# (pgm / dgm / fgm), asga.cpp (asga2 / asga4) -- own group "c02c" (Src_c02c.v). As for c02b: floating-point comparisons are atoms
+# (booleans the model computes in binary64), what is translated is how the body combines them, which integer parameter caps the
+# inner backtracking loop (seeded change C02/3 read another parameter there) and the condition of that loop.
+_ELL, _OSG, _UNI, _ASG = "src/solver/ellipsoid.cpp", "src/solver/osga.cpp", "src/solver/universal.cpp", "src/solver/asga.cpp"
+_ZERO_E = r"gHg < std::numeric_limits<scalar_t>::epsilon\(\)"
+_ZERO_O = r"state\.gx\(\)\.lpNorm<Eigen::Infinity>\(\) < epsilon0<scalar_t>\(\)"
+_VT = (r"state\.value_test\(patience\) < epsilon", "below")
+_PARAMS = [(r'parameter\("solver::max_evals"\)\.value<\w+>\(\)', "max_evals"),
+           (r'parameter\("solver::universal::lsearch_max_iters"\)\.value<\w+>\(\)', "lsearch_max_iters"),
+           (r'parameter\("solver::universal::patience"\)\.value<\w+>\(\)', "patience"),
+           (r'parameter\("solver::asga::lsearch_max_iters"\)\.value<\w+>\(\)', "lsearch_max_iters"),
+           (r'parameter\("solver::asga::patience"\)\.value<\w+>\(\)', "patience")]
+_PARGS = [("lsearch_max_iters", "Z"), ("patience", "Z"), ("max_evals", "Z")]
+KERNELS += [
+    # ellipsoid
+    K("src_ell_zero_exit", _ELL, _DM + r"while \([^{]*\{\s*const auto gHg[^;]*;\s*if \((.*?)\)\s*\{", [(_ZERO_E, "small")], [("small", "bool")], "c02c", _B),
+    K("src_ell_zero_ok", _ELL, _DM + r"while \([^{]*\{\s*const auto gHg[^;]*;\s*if \([^{]*\{\s*const auto iter_ok\s*=\s*(.*?);", [], [], "c02c", _B),
+    K("src_ell_zero_conv", _ELL, _DM + r"while \([^{]*\{\s*const auto gHg[^;]*;\s*if \([^{]*\{\s*const auto iter_ok[^;]*;\s*const auto converged\s*=\s*(.*?);", [], [], "c02c", _B),
+    K("src_ell_1d", _ELL, _DM + r"#endif\s*if \((function\.size\(\) == 1)\)\s*\{", [(r"function\.size\(\)", "size")], [("size", "Z")], "c02c", _B),
+    K("src_ell_H0_choice", _ELL, _DM + r"H\.array\(\) \*= (.*?);", [(r"function\.size\(\)", "size"), (r"\(R \* R\)", "2"), (r"\bR\b", "1")],
+      [("size", "Z")], "c02c", _B),
+    K("src_ell_iter_ok", _ELL, _DM + r"update_if_better\(x, g, f\);\s*const auto iter_ok\s*=\s*(.*?);",
+      [(r"std::isfinite\(f\)", "fin")], [("fin", "bool")], "c02c", _B),
+    K("src_ell_conv", _ELL, _DM + r"update_if_better\(x, g, f\);\s*const auto iter_ok[^;]*;\s*const auto converged\s*=\s*(.*?);",
+      [(r"std::sqrt\(gHg\) < epsilon", "below")], [("below", "bool")], "c02c", _B),
+    # osga
+    K("src_osga_zero_exit", _OSG, _DM + r"while \([^{]*\{\s*if \((.*?)\)\s*\{", [(_ZERO_O, "small")], [("small", "bool")], "c02c", _B),
+    K("src_osga_zero_conv", _OSG, _DM + r"while \([^{]*\{\s*if \([^{]*\{\s*const auto converged\s*=\s*(.*?);", [], [], "c02c", _B),
+    K("src_osga_zero_ok", _OSG, _DM + r"while \([^{]*\{\s*if \([^{]*\{\s*const auto converged[^;]*;\s*const auto iter_ok\s*=\s*(.*?);",
+      [(r"state\.valid\(\)", "valid")], [("valid", "bool")], "c02c", _B),
+    K("src_osga_pick1", _OSG, _DM + r"const auto& xb_prime = (.*?);", [(r"f < fb", "lt"), (r"\bxb\b", "0"), (r"\bx\b", "1")], [("lt", "bool")], "c02c", _B),
+    K("src_osga_pick2", _OSG, _DM + r"const auto& xb_hat = (.*?);", [(r"f_prime < fb_prime", "lt"), (r"\bxb_prime\b", "0"), (r"\bx_prime\b", "1")],
+      [("lt", "bool")], "c02c", _B),
+    K("src_osga_iter_ok", _OSG, _DM + r"update_if_better\(xb_hat, fb_hat\);.*?const auto iter_ok\s*=\s*(.*?);", [(r"state\.valid\(\)", "valid")], [("valid", "bool")], "c02c", _B),
+    K("src_osga_conv", _OSG, _DM + r"update_if_better\(xb_hat, fb_hat\);.*?const auto iter_ok[^;]*;\s*const auto converged\s*=\s*(.*?);",
+      [(r"eta_hat < epsilon", "eta_below"), _VT], [("eta_below", "bool"), ("below", "bool")], "c02c", _B),
+]
+# universal (pgm, dgm, fgm: occurrences 0, 1, 2) and asga (asga2, asga4: occurrences 0, 1)
+for _n, _k in (("pgm", 0), ("dgm", 1), ("fgm", 2)):
+    KERNELS += [
+        K("src_%s_cap" % _n, _UNI, r"const auto lsearch_max_iterations\s*=\s*(.*?);", _PARAMS, _PARGS, "c02c", _B, pick=_k),
+        K("src_%s_inner" % _n, _UNI, r"for \((?:tensor_size_t|int64_t) k = 0; (.*?); \+\+k\)",
+          [(r"std::isfinite\(fxk1\) && std::isfinite\(fyk1\)", "fin"), (r"std::isfinite\(fxk1\)", "fin"), (r"lsearch_max_iterations", "cap")],
+          [("k", "Z"), ("cap", "Z"), ("iter_ok", "bool"), ("fin", "bool")], "c02c", _B, pick=_k),
+        K("src_%s_conv" % _n, _UNI, r"update_if_better\([^;]*;\s*converged\s*=\s*(.*?);", [_VT], [("below", "bool")], "c02c", _B, pick=_k),
+    ]
+for _n, _k in (("asga2", 0), ("asga4", 1)):
+    KERNELS += [
+        K("src_%s_cap" % _n, _ASG, r"const auto lsearch_max_iters\s*=\s*(.*?);", _PARAMS, _PARGS, "c02c", _B, pick=_k),
+        K("src_%s_inner" % _n, _ASG, r"for \(auto p = 0; (.*?); \+\+p\)", [(r"lsearch_max_iters", "cap")],
+          [("p", "Z"), ("cap", "Z"), ("iter_ok", "bool")], "c02c", _B, pick=_k),
+        K("src_%s_conv" % _n, _ASG, r"update_if_better\([^;]*;\s*const auto converged\s*=\s*(.*?);", [_VT], [("below", "bool")], "c02c", _B, pick=_k),
+    ]
